@@ -69,7 +69,10 @@ def monitor(sc, res):
                     exp.append((r, num, O.parse_manifest_bytes(b)["creationdate"]))
             got = []
             absat = os.path.join(res["root"], at) if at else res["root"]
+            lnk = os.path.join(os.path.dirname(res["root"]), "_lnk")
             for sec, n, date, _ in lines:
+                if sec.startswith(lnk + os.sep):  # the root was spelled through the harness's symbolic link
+                    sec = os.path.dirname(res["root"]) + sec[len(lnk):]
                 rr = at if sec == "." else os.path.relpath(sec, res["root"])
                 got.append(("" if rr == "." else rr, n, date))
             if got != exp:
